@@ -520,7 +520,8 @@ def run(tier, seed, out):
                     "runs": r["runs"][:3]} for r in picks]
     out.rule = ("TLC enumerates (expression, variable) pairs: root skeletons (sum, product, quotient, power with "
                 "constant/variable base and exponent, 11 table functions, copysign in either argument, unknown "
-                "functions, If, CSE with and without prefix) over typed holes filled from leaves and depth-1 "
+                "functions, If, CSE with and without prefix; node kinds without a rule - calls with keyword "
+                "arguments, attribute lookups, FunctionSymbol, NaN - as root and inside each of these) over typed holes filled from leaves and depth-1 "
                 "representatives (thorough: one more level + random deeper trees); variables x, y, a[0] and an "
                 "absent z; each pair is differentiated under all 3 settings through 3-4 entry points, once with "
                 "every node a new object and once per object-sharing variant TLC lists for it (all repeated "
